@@ -1,5 +1,6 @@
 import Driver.Common
 import Logrange.Model.Truncate
+import Logrange.Model.TruncateHolders
 import Logrange.Generated.C09
 /-! Model driver for C09 (TRUNCATE). Requests (all numbers decimal):
 
@@ -13,6 +14,10 @@ import Logrange.Generated.C09
       an outcome is `R <src>:<before>:<after>:<chunks>:<deleted 0|1>,… D <src>=<id.id.…>,… P <src>:<phase-I chunks>:<phase-II chunks>,…`
       (R = report lines sorted by src, D = partitions afterwards sorted by src, P = which phase took how many chunks).
       `tie` = the MAXDBSIZE pass runs and two of its candidates share their latest timestamp (class of finding F31).
+* `holders <label>…` — a trace of the product system `Model/TruncateHolders.lean` (tag index protocol × acknowledged bytes ×
+    `deleteJournal` statement by statement, with the regenerated shape facts); labels, comma separated fields:
+    `goc,a,tags,create` `gt,a,s,lock` `rel,a,s` `w,a,s,n` `fl,s` `rm,a,s,k1,k2` `djl,a,s` `djc,a` `djd,a` `dju,a`; labels that are not
+    enabled are skipped → `drops=<src:conf:unfl:toks,…|-> live=<src:conf:unfl:readers,…|-> panicked=<0|1>`
 -/
 open Logrange.Truncate Driver
 
@@ -74,8 +79,34 @@ def hasTie (p : Params) (order : List Part) : Bool :=
 
 def dedup (l : List String) : List String := l.foldr (fun x acc => if acc.contains x then acc else x :: acc) []
 
+def holdersLbl (t : String) : Option Logrange.TruncHolders.Lbl :=
+  match t.splitOn "," with
+  | ["goc", a, tags, c] => some (.idx (.getOrCreate (natOf a) (natOf tags) (c == "1")))
+  | ["gt", a, s, l] => some (.idx (.getTags (natOf a) (natOf s) (l == "1")))
+  | ["rel", a, s] => some (.idx (.release (natOf a) (natOf s)))
+  | ["w", a, s, n] => some (.write (natOf a) (natOf s) (natOf n))
+  | ["fl", s] => some (.flush (natOf s))
+  | ["rm", a, s, k1, k2] => some (.remove (natOf a) (natOf s) (natOf k1) (natOf k2))
+  | ["djl", a, s] => some (.djLock (natOf a) (natOf s))
+  | ["djc", a] => some (.djCheck (natOf a))
+  | ["djd", a] => some (.djDelete (natOf a))
+  | ["dju", a] => some (.djUnlock (natOf a))
+  | _ => none
+
+def showHolders (st : Logrange.TruncHolders.St) : String :=
+  let drops := st.drops.reverse.map (fun d => s!"{d.src}:{d.conf}:{d.unfl}:{d.toks}")
+  let live := (List.range st.t.c.next).filterMap (fun s =>
+    (st.t.c.parts s).map (fun p => s!"{s}:{(st.data s).conf}:{(st.data s).unfl}:{p.readers}"))
+  s!"drops={joinWith "," drops} live={joinWith "," live} panicked={b01 st.t.panicked}"
+
 def step (u : Unit) (toks : List String) : Unit × String :=
   match toks with
+  | "holders" :: rest =>
+    (match rest.mapM holdersLbl with
+     | some tr =>
+       (u, showHolders (Logrange.TruncHolders.run Logrange.Generated.C09.deleteJournalRechecksSize
+         Logrange.Generated.C09.deleteJournalSyncsBeforeRecheck Logrange.TruncHolders.init tr))
+     | none => (u, "bad-label"))
   | "choose" :: dry :: mx :: mn :: bef :: jsize :: k :: rest =>
     let cks := (readChunks (natOf k) rest).1
     let p : Params := { dryRun := dry == "1", maxSrc := natOf mx, minSrc := natOf mn, oldestTs := intOf bef }
